@@ -5,7 +5,7 @@ def plan(tier):
                 "cfg": "SuffixIndexMC_C04.cfg" if q else "SuffixIndexMC_C04_thorough.cfg",
                 "timeout": 1500, "args": ["-coverage", "1"]}],
         "families": [{"fam": "bwt", "trace": "SuffixIndexTraceBwt", "nfiles": 1, "timeout": 3000}],
-        "required_obligations": ["exhaustive_small", "alphabet_max_symbol_sweep_around_dollar", "exhaustive_raw_strings", "row_on_checkpoint_and_before", "single_checkpoint", "k64", "k65",
+        "required_obligations": ["exhaustive_small", "run_ge_256_occ_rate_gt_256", "alphabet_max_symbol_sweep_around_dollar", "exhaustive_raw_strings", "row_on_checkpoint_and_before", "single_checkpoint", "k64", "k65",
                                  "k_gt64_half_boundary", "k_gt64_three_checkpoints", "k_gt64_last_partial_block",
                                  "k_gt64_absent_symbol", "absent_symbol", "invert", "multi_sentinel"],
         "rule": "one run = one (text, alphabet): suffix_array, bwt, less, one full Occ::get table (every row x every "
@@ -13,10 +13,12 @@ def plan(tier):
                 "k in 1..2n, every string over {$,A,C} of length <=5 (quick)/7 (thorough) as a raw Occ input with all k, plus texts of the checkpoint-boundary lengths (1..400; random, unary, periodic, long runs, "
                 "multi-sentinel, sentinels 0/'#'/'$', symbols up to 255) with k in {1,2,3,7,8,63,64,65,66,100,128,129,"
                 "(n-1)/2,n-2,n-1,n,2n} and alphabets equal to / larger than the text's (absent symbols, implicit '$'); "
+                "raw strings of 600..3000 rows with runs of 100..3000 equal symbols (unary, alternating, two "
+                "halves, random runs) under Occ rates {257,300,512,514,600,1024,n-1,n+1}, all rows and symbols; "
                 "dense integer alphabets 0..=max for every max in 30..40 and {127,128,253,254,255}, with and without '$'",
         "bounds": {"mc": "Sym={$,a,b}, n<=6 (quick) / 8 (thorough), all k in 1..2n, T=2: build steps + every (r,c) "
                          "query split by branch; bwtfind + invert_bwt walk on the BWT of every single-sentinel text over {a,b}",
-                   "impl": "n<=400, k<=2n, T=64 (the code's constant), alphabets up to symbol 255"},
+                   "impl": "n<=400 (texts) / 3000 (raw Occ inputs), k<=2n, T=64 (the code's constant), alphabets up to symbol 255"},
         "assumptions": ["ndJsonDeserialize/TLC evaluate the TLA+ definitions faithfully",
                         "bwt/less/Occ/invert are judged against the suffix array the code returned for the text "
                         "(accepted under any admissible sentinel order), not against a spec-computed array",
